@@ -48,43 +48,65 @@ THEOREMS = [
     'CpProofs.C02Fn.C02_args_final_vpath',
     'CpProofs.C02Fn.C02_popargs_binds_popped',
     'CpProofs.C02Fn.C02_popargs_probe',
+    'CpProofs.C02Fn.C02_vhost_exposed_only',
+    'CpProofs.C02Fn.C02_xmlrpc_exposed_only',
     # mounts (Tree.script_name) in front of the dispatcher
     'CpProofs.C02Mount.C02_most_specific_mount',
     'CpProofs.C02Mount.C02_mount_segment_boundary',
     'CpProofs.C02Mount.C02_root_mount_serves_all',
 ]
 LEVEL = 'proof'
-TECHNIQUE = ('Lean 4 proof: the transcription of Dispatcher.find_handler is proved equal to a declarative longest-prefix / '
-             'exposed-only resolver by induction over the segment list and the object trail (all object graphs, all paths); '
-             'model tied to the real dispatcher by a differential run over generated object trees')
-LEVEL_TEXT = ('Proved in Lean for every object graph, application config and path: the handler returned by the model of '
-              'find_handler carries a true exposed mark (the default method its own), it is the candidate of maximal trail '
-              'index (default before the object at the same index), 404 exactly when no trail entry has an exposed candidate; '
-              'without _cp_dispatch on the path the trail is the attribute chain of the translated segments and '
-              'segments = matched ++ vpath; in general vpath is a suffix of the segments; arguments are the vpath with %2F '
-              'restored; the method dispatcher calls attribute METHOD (HEAD falls back to GET) of that resource, answers 405 '
-              'exactly when it is missing, and Allow is the sorted upper-case names plus HEAD when GET exists. The translate '
-              'table is regenerated from the live module and proved to map exactly string.punctuation to "_". Partial: Python '
-              'attribute lookup is the serialised attribute view of the real objects; purity is checked on the implementation '
-              'only (the model is a function by construction); what popargs binds into request.params is modelled and compared, with '
-              'one theorem (no path-derived keyword arguments without _cp_dispatch).')
-LEVEL_NOTE = ('Trusted: Lean kernel, the hand model lean/CpModel/Dispatch.lean as validated by the differential run, the '
-              'serialised getattr view of the generated objects (Python semantics), the harness.')
+TECHNIQUE = ('Lean 4 proof: the transcription of Dispatcher.find_handler - with every _cp_dispatch an arbitrary function of the '
+             'remaining path - is proved equal to a declarative longest-prefix / exposed-only resolver by induction over '
+             'the segment list and the object trail (all object graphs, dispatcher functions, paths); model tied to the '
+             'real dispatcher by a differential run over generated object trees whose dispatchers record what they consumed')
+LEVEL_TEXT = ('Proved in Lean for every object graph, application config, path and every behaviour of the _cp_dispatch '
+              'callables (arbitrary functions from the remaining path to an object and a rewritten list, or raising): the '
+              'handler returned by find_handler carries a true exposed mark (the default method its own), it is the candidate '
+              'of maximal trail index (default before the object at the same index) of the trail the dispatchers produced, 404 '
+              'exactly when no trail entry has an exposed candidate; consecutive trail entries are related by a declarative '
+              'step relation (attribute of the translated name / miss / what the dispatcher did) and segleft is the number of '
+              'names left; when dispatchers only remove from the front of the list (the contract the code states; proved for '
+              'every popargs form) the positional arguments are exactly what was left of the list at the chosen entry, a suffix '
+              'of the segments, with %2F restored - and this fails for list-rewriting dispatchers (negation proved with a '
+              'witness that is replayed on the real code). popargs binds names[:n] to vpath[:n] in order, into request.params '
+              'unless a handler function receives them; the live popargs is probed on every run (several calls on one '
+              'decorated object) and a theorem states that every call equals the model on that call alone (nothing survives a '
+              'call). The model compared with the code (dispatcher descriptors) is proved to be an instance of the general '
+              'one. Without _cp_dispatch the trail is the attribute chain of the translated segments. Method dispatcher: verb '
+              'attribute (HEAD falls back to GET) of that resource, 405 exactly when missing, Allow sorted upper-case names plus '
+              'HEAD when GET exists. The translate table is regenerated from the live module and proved to map exactly '
+              'string.punctuation to "_". Beyond the statement (model + theorem + correspondence, no oracle clause): '
+              'Tree.script_name returns the longest mounted script name ending at a segment boundary of the path; VirtualHost '
+              'and XMLRPCDispatcher are the default dispatcher on a rewritten path. Partial: Python attribute lookup is the '
+              'serialised attribute view of the real objects; purity is checked on the implementation only (the model is a '
+              'function by construction).')
+LEVEL_NOTE = ('Trusted: Lean kernel, the hand models lean/CpModel/Dispatch.lean and DispatchFn.lean as validated by the '
+              'differential run, the serialised getattr view of the generated objects and the recorded dispatcher calls '
+              '(Python semantics), the harness.')
 TRUSTED_BASE = [
     'Python attribute lookup (getattr/hasattr/dir/bool) on the generated objects is serialised by the harness and is an input '
     'of the model, not modelled',
     'the request pipeline between the WSGI entry point and the dispatcher (path_info is recorded at the dispatcher)',
+    'the recording wrapper around every generated _cp_dispatch (list before / after, returned object, request.params '
+    'updates); every eighth dispatcher-rich tree runs without it',
 ]
 ASSUMPTIONS = [
-    'object graphs are finite; _cp_dispatch callables are of the generated families (popargs in its three forms, custom: pop k / '
-    'insert names / return fixed object, self, or getattr(self, vpath[0]))',
+    'object graphs are finite; the theorems hold for arbitrary _cp_dispatch functions, the correspondence run exercises the '
+    'generated families (popargs in its three forms, nested through handler=; custom: pop k / insert names / rewrite the list / '
+    'return fixed object, self, None or an attribute of self)',
     'handlers accept any arguments (test_callable_spec is not exercised)',
+    'mount keys are set through Tree.mount (no trailing slash)',
 ]
 RULE = ('random object trees (depth <= 4; exposed/unexposed index, default, methods, callable instances, non-callable '
         'attributes, aliases, underscore/dunder/punctuated names, shared and cyclic references, falsy objects, _cp_dispatch in '
-        'popargs and custom forms) x paths walking the tree with punctuation variants, unknown names, vpath tails, %2F, dots, '
-        'dunder names, trailing and doubled slashes; default and method dispatcher; non-trivial = the path has at least one '
-        'segment; distinct = distinct (tree, path, method)')
+        'popargs and custom forms) and level trees (a spine of 2..4 objects each owning a dispatcher that consumes 0..3 '
+        'segments: popargs class/attribute form, handler object / function / None, custom pop/peek/pop-getattr, list-rewriting '
+        'dispatchers; index/default/aliases/_cp_config at every level) x paths walking the tree through attributes and '
+        'dispatchers with punctuation variants, unknown names, vpath tails, %2F, dots, dunder names, trailing and doubled '
+        'slashes, query strings and form bodies; default and method dispatcher, behind VirtualHost / XMLRPCDispatcher; '
+        'mount tables x SCRIPT_NAME/PATH_INFO pairs; non-trivial = the path has at least one segment; distinct = distinct '
+        '(tree, path, method, query, body, headers, wrapper)')
 
 NAMES = ['a', 'b', 'c', 'a_b', 'x_y', '_p', '__d', 'idx', 'Get', 'a_2Fb', '_', '__', 'café']
 VARIANTS = {
@@ -210,7 +232,7 @@ def popargs_probe_table(cherrypy):
     def kvs(l):
         for k, v in l:
             if not isinstance(k, str) or not isinstance(v, str):
-                raise common.HarnessError('popargs bound a non-string: %r' % ((k, v),))
+                raise ValueError('popargs bound a non-string: %r' % ((k, v),))
         return '[%s]' % ', '.join('(%s, %s)' % (nm(k), nm(v)) for k, v in l)
     rows = []
     for names, kind, calls in popargs_probe(cherrypy):
